@@ -231,6 +231,58 @@ pub fn main(args: &[String]) -> i32 {
                 run_one(i + 1, s["n"].as_u64().unwrap() as usize, s["steps"].as_array().unwrap().clone(), &mut out);
             }
         }
+        // hashes far above any per-delta size threshold, crossed with a concurrent write of another type
+        Some("bighash") => {
+            let mut run = 0;
+            for nf in [8usize, 63, 64, 65, 70, 130] {
+                for other in ["set", "del"] {
+                    run += 1;
+                    let mut steps: Vec<Value> = Vec::new();
+                    for i in 1..=nf {
+                        steps.push(json!({"a": "client", "n": 1, "op": "hset", "v": "1", "f": format!("f{i}"), "e": -1}));
+                        steps.push(json!({"a": "deliver", "seq": i, "to": 2}));
+                    }
+                    steps.push(json!({"a": "client", "n": 2, "op": other, "v": "s", "f": "", "e": -1}));        // seq nf+1, held back
+                    steps.push(json!({"a": "client", "n": 1, "op": "hset", "v": "9", "f": "a", "e": -1}));      // seq nf+2
+                    steps.push(json!({"a": "deliver", "seq": nf + 2, "to": 2}));
+                    steps.push(json!({"a": "deliver", "seq": nf + 1, "to": 1}));
+                    run_one(run, 2, steps, &mut out);
+                }
+            }
+        }
+        // node level (ReplicatedShardedState, 16 shards): a write accepted by A and delivered to B is served by B
+        Some("nodepair") => {
+            use redis_sim::production::ReplicatedShardedState;
+            use redis_sim::replication::ReplicationConfig;
+            let rt = tokio::runtime::Builder::new_current_thread().enable_all().build().unwrap();
+            let keys = ["k", "user:1", "{user:1}:name", "a{b}c", "{}x", "{tag}", "x{y", "é{é}", "{a}{b}", "key with space"];
+            let mut run = 0;
+            for key in keys {
+                run += 1;
+                let ev = rt.block_on(async {
+                    let na = ReplicatedShardedState::new(ReplicationConfig { replica_id: 1, ..Default::default() });
+                    let nb = ReplicatedShardedState::new(ReplicationConfig { replica_id: 2, ..Default::default() });
+                    let _ = na.execute(argv_cmd(&["SET", key, "v1"])).await;
+                    let ds: Vec<ReplicationDelta> = na.collect_pending_deltas().await;
+                    let nd = ds.len();
+                    nb.apply_remote_deltas(ds);
+                    // B accepts a hash field elsewhere and A gets it back
+                    let hk = format!("h{key}");
+                    let _ = nb.execute(argv_cmd(&["HSET", &hk, "f", "1"])).await;
+                    let back: Vec<ReplicationDelta> = nb.collect_pending_deltas().await.into_iter().filter(|d| d.key == hk).collect();
+                    na.apply_remote_deltas(back);
+                    let ga = format!("{:?}", na.execute(argv_cmd(&["GET", key])).await);
+                    let gb = format!("{:?}", nb.execute(argv_cmd(&["GET", key])).await);
+                    let ha = format!("{:?}", na.execute(argv_cmd(&["HGET", &hk, "f"])).await);
+                    let hb = format!("{:?}", nb.execute(argv_cmd(&["HGET", &hk, "f"])).await);
+                    json!({"a": "nodepair", "key": key, "deltas": nd, "a_get": ga, "b_get": gb, "a_hget": ha, "b_hget": hb})
+                });
+                out.emit(&json!({"a": "reset", "run": run, "n": 2}));
+                let mut ev = ev;
+                ev["run"] = json!(run);
+                out.emit(&ev);
+            }
+        }
         Some("record") => {
             let mut rng = rng(a.u64("seed", 1));
             let reg = ["set", "setnx", "setxx", "getset", "del", "incr", "append"];
